@@ -636,6 +636,11 @@ public:
 
 	// - - - - - - - - - - - - - - - - - - - - - - - - - - - - - - - - - - -
 
+#ifdef HFSM2_VERIF
+	/// @brief Read-only access to the machine core for the verification harness
+	HFSM2_CONSTEXPR(11)	const Core& verifCore()											  const noexcept	{ return _core;											}
+#endif
+
 protected:
 	HFSM2_CONSTEXPR(14)	void initialEnter()														noexcept;
 	HFSM2_CONSTEXPR(14)	void finalExit()														noexcept;
